@@ -10,3 +10,7 @@ fn witness_range_arm(arrays: Vec<ArrayRef>, sp: &mut Vec<SplitPoint>, so: &mut V
     let r = range_arm_fragment(arrays, sp, so, buf, idx);
     //@MUSTFAIL
 }
+fn witness_grouped_take(batch: &RecordBatch, idx: &mut [Vec<u32>]) requires old(idx)@.len() == 3 {
+    let r = grouped_take_bookkeeping(batch, idx);
+    //@MUSTFAIL
+}
